@@ -154,6 +154,9 @@ def coerce(val, ty):
     if isinstance(val, PyDict):
         if isinstance(ty, DictT) and not val.items:
             return V(ty, ty.nil)
+        if not val.items and getattr(ty, "empty_dict_term", None) is not None:
+            # `{}` where the sidecar models the dict-like values of this place by an opaque sort with a named empty value
+            return V(ty, ty.empty_dict_term())
         if isinstance(ty, RecT):
             kw = {}
             for k, v in val.items.items():
